@@ -2,6 +2,7 @@
 
     python -m standins.stream_checks <check[,check]> --tier quick|thorough --seed N --out file.json
 """
+from standins import guard
 import argparse
 import gzip
 import io
@@ -266,6 +267,8 @@ def chk_concat(T, v, M, opts):
                 for obj in dec.StreamingDecoder(s, asn1Spec=spec):
                     objs.append(obj)
                     ends.append(s.tell())
+                    if len(objs) > count + 8:
+                        break       # a complete stream of `count` items: anything more is reported below
             except Exception as ex:
                 out.append(fail('concat', T, v, '%s: %s' % (type(ex).__name__, str(ex)[:120]), enc=e, count=count,
                                 codec=ename))
@@ -438,7 +441,10 @@ def _run_chunk(args):
             if nm not in CHECKS:
                 continue
             try:
-                f, n = CHECKS[nm](T, v, M, opts)
+                with guard.time_limit(guard.CASE_SECONDS):
+                    f, n = CHECKS[nm](T, v, M, opts)
+            except guard.CaseTimeout:
+                f, n = [fail(nm, T, v, 'does not terminate within %d s on this case' % guard.CASE_SECONDS)], 1
             except Exception as ex:
                 f, n = [fail(nm, T, v, 'harness error %s: %s' % (type(ex).__name__, ex),
                              trace=traceback.format_exc()[-800:], harness_error=True)], 1
